@@ -152,9 +152,10 @@ class Ctx:
         return pkgdir.rsplit('/', 1)[-1].replace('-', '_')
 
     def keep_replay(self, label, entry, inputs, extra=None):
-        os.makedirs(os.path.join(VERIF, 'replays'), exist_ok=True)
+        rdir = os.environ.get('VERIF_REPLAY_DIR') or os.path.join(VERIF, 'replays')
+        os.makedirs(rdir, exist_ok=True)
         h = hashlib.sha1(json.dumps([entry, label, inputs], sort_keys=True).encode()).hexdigest()[:10]
-        p = os.path.join(VERIF, 'replays', '%s-%s-%s.json' % (self.pid, entry, h))
+        p = os.path.join(rdir, '%s-%s-%s.json' % (self.pid, entry, h))
         d = {'property': self.pid, 'entry': entry, 'label': label, 'inputs': inputs}
         if extra:
             d.update(extra)
@@ -544,7 +545,9 @@ def write_evidence(ctx, level, explanation, bounds, assumptions, trusted=None, e
         'assumptions': assumptions + ctx.assumptions, 'wall_s': round(time.time() - ctx.t0, 1),
         'violations': len(ctx.violations),
     }
-    os.makedirs(os.path.join(VERIF, 'evidence'), exist_ok=True)
-    p = os.path.join(VERIF, 'evidence', ctx.pid + '.json')
+    # (VERIF_EVIDENCE_DIR: scratch location used when the checks are tried against seeded changes)
+    edir = os.environ.get('VERIF_EVIDENCE_DIR') or os.path.join(VERIF, 'evidence')
+    os.makedirs(edir, exist_ok=True)
+    p = os.path.join(edir, ctx.pid + '.json')
     json.dump(ev, open(p, 'w'), indent=1, default=str)
     return ev
